@@ -2522,6 +2522,14 @@ impl<'a> Socket<'a> {
             // can't actually do anything.
             self.timer.set_for_idle(cx.now(), self.keep_alive);
 
+            // If the remote window is closed the data cannot be retransmitted now and no
+            // retransmit timer will be started below; keep probing the window instead of
+            // going idle with unacknowledged data queued.
+            if self.remote_win_len == 0 && !self.tx_buffer.is_empty() {
+                let delay = self.rtte.retransmission_timeout();
+                self.timer.set_for_zero_window_probe(cx.now(), delay);
+            }
+
             // Inform RTTE, so that it can avoid bogus measurements.
             self.rtte.on_retransmit();
         }
